@@ -244,19 +244,12 @@ func leaseMain() {
 	vrt.SetOutcome(fmt.Sprintf("%v|%v", hist, lastOf(leader.events)))
 }
 
-// sdClassify: every abnormal end is a violation, with ONE exception that is an observation about the tree and
-// not a violation of C10: a member's heart-beat thread holds the leader's client while the election callback
-// (OnBecomeFollower -> RemoveLeader -> client.Close(), which sets the connection to nil) runs, and then pings
-// through it - a nil dereference that kills that member's process. The property quantifies over deaths and
-// restarts of members (the dead member is dropped, the restarted one admitted); the harness cannot carry on
-// after the death of a process, so such an execution ends here as "member died" (DESIGN.md section 8).
+// sdClassify: every abnormal end of a service-discovery scenario is a violation. (Until fix 96c52f1 one kind of
+// crash - a heart-beat thread pinging through a client that the election callback had just closed and set to nil -
+// was ended as "member died"; the same nil dereference then turned up in the leader's monitor loop when a follower
+// dies, and the cause was repaired: see DESIGN.md section 8.)
 func sdClassify(r *vrt.Result) []string {
 	if r.Status == vrt.StatusOK {
-		return nil
-	}
-	if r.Status == vrt.StatusCrash && r.Crash != nil && strings.Contains(r.Crash.Thread, "StartHeartbeat") &&
-		strings.Contains(r.Crash.Value, "nil pointer dereference") && strings.Contains(r.Crash.Stack, "servicediscovery.(*client).Ping") {
-		r.Failures = nil // checks of the interrupted history do not apply
 		return nil
 	}
 	m := "execution ended with status " + r.Status.String()
